@@ -18,6 +18,9 @@ checks = {
  "C13": ("model_checking", "crash-point x post-crash-image enumeration, single-fault and short-write enumeration on the real DirFs.AtomicCreate over simunix; all interleavings up to a preemption bound of creators + reader on DirFs and MemFs",
          "Every prior state x leftover temp file x data size: all-or-nothing at every instant, in every post-crash image and after every single failing system call; flushed before visible; concurrent creators and a reader never observe or leave anything but one caller's complete data.",
          "crash/fault model of simunix; system calls atomic; preemption bound", "2 C13"),
+ "C14": ("model_checking", "stateless exploration of all interleavings up to a preemption bound under a controlled scheduler + porcupine linearizability vs the reference filesystem; free-running -race complement",
+         "Every schedule with <=2 (quick) / <=3 (thorough) preemptions of 2-3 client programs on colliding names is linearizable w.r.t. the reference filesystem on MemFs (statement-level preemption) and DirFs (system-call-level), with distinct live descriptors.",
+         "preemption points only where instrumented; system calls atomic; race pass not exhaustive over schedules", "2 C14"),
 }
 todo = {}
 man = {
